@@ -50,6 +50,11 @@ class Sync:
         self.bitwords = {}
         self.consts = {}          # declaration id -> int: helper parameters bound to a constant at the followed call site
         self.this_alias = set()   # parameters / reference members of followed helper objects that designate the analysed *this
+        # "locked handle" idiom (see rules/C12.py recognise_handles): accessor function id -> dict(mutex, target, held, ctor);
+        # ids of the handle classes' operator-> / operator*; raw pointers obtained from a handle / &member: var id -> field
+        self.handles = {}
+        self.handle_ops = set()
+        self.ptr_alias = {}
         self.field_map = {}       # (nested record, member) -> canonical (record, member) it stands for
         self.ref_alias = {}       # reference parameter of a followed helper -> the argument expression it is bound to
 
@@ -219,6 +224,10 @@ class Sync:
         tu = self.tu
         e = tu.strip(e, casts=True)
         e = self.deref_alias(e)
+        if e is not None and (self.handles or self.ptr_alias) and e.get('kind') != 'MemberExpr':
+            t = self.handle_target(e)
+            if t is not None:
+                return t
         if e is None or e.get('kind') != 'MemberExpr':
             return None
         s = tu.sd(e)
@@ -226,6 +235,84 @@ class Sync:
             return None
         key = (s.get('rec'), e.get('name'))
         return self.field_map.get(key, key)     # members of a nested state class stand for the canonical members
+
+    def handle_call(self, e, depth=0):
+        """(call node, info) if e is a call of a recognised locked-handle accessor on *this (possibly wrapped in the temporaries /
+        the move construction that initialise a local from it), else None"""
+        tu = self.tu
+        e = tu.strip(e, casts=True) if e is not None else None
+        if e is None or depth > 3 or not self.handles:
+            return None
+        if e.get('kind') in ('CXXConstructExpr', 'CXXTemporaryObjectExpr') and len(tu.kids(e)) == 1:
+            return self.handle_call(tu.kids(e)[0], depth + 1)
+        if e.get('kind') == 'CXXMemberCallExpr':
+            cf = tu.callee_fn(e)
+            if cf is not None and cf['id'] in self.handles:
+                me = tu.strip(tu.kids(e)[0]) if tu.kids(e) else None
+                if me is not None and me.get('kind') == 'MemberExpr' and (not tu.kids(me) or tu.is_this(tu.kids(me)[0])):
+                    return e, self.handles[cf['id']]
+        return None
+
+    def handle_lock_holder(self, obj):
+        """`h.lock` for a named local handle h (initialised from a locked-handle accessor): the id of h, which is the lock holder"""
+        tu = self.tu
+        obj = tu.strip(obj, casts=True)
+        if obj is None or obj.get('kind') != 'MemberExpr' or not tu.kids(obj):
+            return None
+        fld = self.field(obj)
+        if fld is None or (fld[0], fld[1]) not in {(i['rec'], i['lockmem']) for i in self.handles.values()}:
+            return None
+        b = tu.strip(tu.kids(obj)[0], casts=True)
+        if b is None or b.get('kind') != 'DeclRefExpr':
+            return None
+        d = tu.node(b.get('referencedDecl', {}).get('id'))
+        if d is not None and d.get('kind') == 'VarDecl' and tu.kids(d) and self.handle_call(tu.kids(d)[-1]) is not None:
+            return d['id']
+        return None
+
+    def handle_var_calls(self):
+        """ids of the accessor calls whose result initialises a named local handle (the local then is the lock holder)"""
+        if getattr(self, '_hvc', None) is None or self._hvc[0] != len(self.handles):
+            tu, out = self.tu, set()
+            for f in tu.functions.values():
+                if f['dep'] or tu.body(f) is None:
+                    continue
+                for x in tu.walk(tu.body(f)):
+                    if x.get('kind') == 'VarDecl' and tu.kids(x):
+                        hc = self.handle_call(tu.kids(x)[-1])
+                        if hc is not None:
+                            out.add(hc[0]['id'])
+            self._hvc = (len(self.handles), out)
+        return self._hvc[1]
+
+    def handle_target(self, e):
+        """guarded field designated by `<handle>->` / `*<handle>` (handle = accessor call or a local initialised from one), by
+        `*p` / `p` for a raw pointer p obtained from such an expression, else None"""
+        tu = self.tu
+        e = tu.strip(e, casts=True) if e is not None else None
+        if e is None:
+            return None
+        k = e.get('kind')
+        if k == 'DeclRefExpr':
+            return self.ptr_alias.get(e.get('referencedDecl', {}).get('id'))
+        if k == 'UnaryOperator' and e.get('opcode') == '*':
+            x = tu.strip(tu.kids(e)[0], casts=True)
+            if x is not None and x.get('kind') == 'DeclRefExpr':
+                return self.ptr_alias.get(x.get('referencedDecl', {}).get('id'))
+            return None
+        if k == 'CXXOperatorCallExpr':
+            cf = tu.callee_fn(e)
+            ks = tu.kids(e)
+            if cf is None or cf['id'] not in self.handle_ops or len(ks) < 2:
+                return None
+            obj = tu.strip(ks[1], casts=True)
+            hc = self.handle_call(obj)
+            if hc is None and obj is not None and obj.get('kind') == 'DeclRefExpr':
+                d = tu.node(obj.get('referencedDecl', {}).get('id'))
+                if d is not None and d.get('kind') == 'VarDecl' and tu.kids(d):
+                    hc = self.handle_call(tu.kids(d)[-1])
+            return hc[1]['target'] if hc is not None else None
+        return None
 
     def deref_alias(self, e, depth=0):
         """a reference parameter of a followed helper stands for the expression it was bound to at the call"""
@@ -244,6 +331,8 @@ class Sync:
         tu = self.tu
         e = tu.strip(e, casts=True)
         e = self.deref_alias(e)
+        if e is not None and (self.handles or self.ptr_alias) and e.get('kind') != 'MemberExpr' and self.handle_target(e) is not None:
+            return True             # reached through a handle / pointer that this object handed out for its own member
         if e is None or e.get('kind') != 'MemberExpr':
             return False
         ks = tu.kids(e)
@@ -504,6 +593,11 @@ class Sync:
             if not ks:
                 continue
             ce = tu.strip(ks[-1])
+            hc = self.handle_call(ks[-1]) if self.handles else None
+            if hc is not None:
+                # a local that takes over the handle (and with it the lock) returned by a locked-handle accessor
+                out.append((v['id'], hc[1]['mutex'], hc[1]['held'], {'kind': 'VarDecl', 'id': v['id'], 'inner': [hc[1]['ctor']]}))
+                continue
             if ce is None or ce.get('kind') not in ('CXXConstructExpr', 'CXXTemporaryObjectExpr'):
                 continue
             s = tu.sd(ce)
@@ -551,12 +645,26 @@ class Sync:
             return None
         if e[0] == 'MD':
             return ('unlock-scope', ('mem', e[1]))
+        if e[0] == 'TD' and self.handles:
+            bt = tu.node(e[1])
+            hc = self.handle_call(bt) if bt is not None else None
+            if hc is not None and hc[0]['id'] not in self.handle_var_calls():
+                return ('unlock-scope', ('tmp', hc[0]['id']))       # the temporary handle dies at the end of the full expression
+            return None
         if e[0] != 'S':
             return None
         n = tu.node(e[1])
         if n is None:
             return None
         k = n.get('kind')
+        if self.handles and k == 'CXXMemberCallExpr':
+            hc = self.handle_call(n)
+            if hc is not None and hc[0] is n and n['id'] in self.handle_var_calls():
+                return None                     # the returned handle is (moved into) a named local: see lock_decl
+            if hc is not None and hc[0] is n:
+                info = hc[1]
+                return ('locks', [(('tmp', n['id']), info['mutex'], info['held'],
+                                   {'kind': 'VarDecl', 'id': ('tmp', n['id']), 'inner': [info['ctor']]})], n)
         if self.bitwords:
             ml = self.masked_load(n)
             if ml is not None:
@@ -590,6 +698,10 @@ class Sync:
             rec, name = s.get('rec'), last(s.get('q'))
             if rec in ('std::unique_lock', 'std::lock_guard', 'std::scoped_lock') and obj is not None:
                 v = self.local_var(obj)
+                if v is None and self.handles:
+                    v = self.handle_lock_holder(obj)
+                    if v is None:
+                        return ('lk-other', None, name, n)
                 if name == 'unlock':
                     return ('lk-unlock', v, n)
                 if name == 'lock':
@@ -747,7 +859,7 @@ class Inliner:
         if n is None or n.get('kind') not in CALLS + ('CXXConstructExpr', 'CXXTemporaryObjectExpr'):
             return None
         cf = tu.callee_fn(n)
-        if cf is None or cf.get('dep') or tu.cfg(cf) is None:
+        if cf is None or cf.get('dep') or tu.cfg(cf) is None or cf['id'] in getattr(self, 'skip', ()):
             return None
         return cf if self.is_own(cf) else None
 
@@ -766,7 +878,7 @@ class Inliner:
                 if f.get('dtor') and not f.get('dep') and self.tu.cfg(f) is not None and f.get('rect'):
                     self._dtors[f['rect']] = f
         f = self._dtors.get((type_name or '').replace('const ', '').strip())
-        return f if f is not None and self.is_own(f) else None
+        return f if f is not None and self.is_own(f) and f['id'] not in getattr(self, 'skip', ()) else None
 
     def args(self, n, cf):
         ks = self.tu.kids(n)
